@@ -183,7 +183,7 @@ Definition fr_and_then (first : option rounding) (second : frounded) : frounded 
 
 (** Repr::<2>::into_f32_internal / into_f64_internal *)
 Definition into_float_internal (P : enc_params) (s e : Z) : frounded :=
-  if e >=? TOP_MAX P then
+  if e + blen (Z.abs s) >? TOP_MAX P then
     (if s <? 0 then FR (2 ^ (W P - 1) + inf_bits P) (Some SubOne) else FR (inf_bits P) (Some AddOne))
   else if e <? (- (BIAS P - 1) - MB P) - (MB P + 1) then
     FR (if s <? 0 then 2 ^ (W P - 1) else 0) (Some NoOp)
@@ -201,7 +201,40 @@ Definition fbig2_to_float (P : enc_params) (m : mode) (s e : Z) : frounded :=
   | AInexact s' e' r => fr_and_then (Some r) (into_float_internal P s' e')
   end.
 
-(** ---- rational/src/third_party/dashu_float.rs: Repr::to_float ---- *)
+(** into_f32_internal / into_f64_internal with their debug assertion (the harness profile keeps
+    debug assertions on): a significand of more than MB+1 bits panics *)
+Definition into_float_checked (P : enc_params) (s e : Z) : result frounded :=
+  if dlen 2 s >? MB P + 1 then Panic Undocumented else Ok (into_float_internal P s e).
+
+Definition and_then_checked (P : enc_params) (a : approx) : result frounded :=
+  match a with
+  | AExact s e => into_float_checked P s e
+  | AInexact s e r =>
+      match into_float_checked P s e with Ok fr => Ok (fr_and_then (Some r) fr) | o => o end
+  end.
+
+(** Context::convert_base::<B, 2> on the routes that need no logarithm: B a power of two (the
+    exponent is multiplied), or |exponent| <= THRESHOLD_SMALL_EXP (exact power, or repr_div by the
+    power).  The exact routes round to the context precision (after C08's repair). *)
+Definition ilog_exact2 (B : Z) : Z := if B =? 2 ^ Z.log2 B then Z.log2 B else 0.
+Definition convert_base_to2 (B p : Z) (m : mode) (s e : Z) : result approx :=
+  let n := ilog_exact2 B in
+  if 1 <? n then (let '(s0, e0) := normalize 2 s (e * n) in Ok (repr_round 2 p m s0 e0))
+  else if 0 <=? e then (let '(s0, e0) := normalize 2 (s * B ^ e) 0 in Ok (repr_round 2 p m s0 e0))
+  else
+    let '(s1, e1) := normalize 2 s 0 in
+    let '(s2, e2) := normalize 2 (B ^ (- e)) 0 in
+    (* debug assertion of repr_div: the dividend must not be longer than precision + divisor *)
+    if dlen 2 s1 >? p + dlen 2 s2 then Err 1 else
+    repr_div 2 p m s1 e1 s2 e2.
+
+(** FBig<R,B>::to_f32 (mode R) / to_f64 (HalfEven) and Repr<B>::to_f32/to_f64, finite, any base *)
+Definition fbig_to_float (P : enc_params) (B : Z) (m : mode) (s e : Z) : result frounded :=
+  if B =? 2 then Ok (fbig2_to_float P m s e)
+  else rbind (convert_base_to2 B (MB P + 1) m s e) (and_then_checked P).
+
+(** ---- rational/src/third_party/dashu_float.rs: Repr::to_float (as is: the quotient is rounded
+    to an integer, then convert_int rounds that integer to the precision) ---- *)
 Definition rat_to_fbig (B p : Z) (m : mode) (N D : Z) : approx :=
   if N =? 0 then AExact 0 0 else
   let num_digits := dlen B N - 1 in
@@ -210,15 +243,30 @@ Definition rat_to_fbig (B p : Z) (m : mode) (N D : Z) : approx :=
   let n' := N * B ^ shift in
   let q := Z.quot n' D in
   let r := Z.rem n' D in
-  if r =? 0 then
-    let '(s0, e0) := normalize B q 0 in
-    match repr_round B p m s0 e0 with
-    | AExact s e => AExact s (e - shift)
-    | AInexact s e f => AInexact s (e - shift) f
-    end
-  else
-    let q' := q * B ^ 2 + (if r <? 0 then -1 else 1) in
-    match repr_round B p m q' 0 with
-    | AExact s e => AExact s (e - (shift + 2))
-    | AInexact s e f => AInexact s (e - (shift + 2)) f
-    end.
+  let first := if r =? 0 then None else Some (round_ratio m q r D) in
+  let n := match first with None => q | Some a => q + adj a end in
+  let '(s0, e0) := normalize B n 0 in
+  match repr_round B p m s0 e0, first with
+  | AExact s e, None => AExact s (e - shift)
+  | AExact s e, Some a => AInexact s (e - shift) a
+  | AInexact s e f, _ => AInexact s (e - shift) f
+  end.
+
+(** the class of the open finding: the first rounding was inexact and left more than p digits,
+    so a second rounding follows *)
+Definition rat_to_fbig_twice (B p : Z) (m : mode) (N D : Z) : bool :=
+  if N =? 0 then false else
+  let num_digits := dlen B N - 1 in
+  let den_digits := dlen B D - 1 in
+  let shift := if num_digits >=? p + den_digits then 0 else (p + den_digits) - num_digits in
+  let n' := N * B ^ shift in
+  let q := Z.quot n' D in
+  let r := Z.rem n' D in
+  negb (r =? 0) && (dlen B (fst (normalize B (q + adj (round_ratio m q r D)) 0)) >? p).
+
+(** the correctly rounded p-digit float of N/D: significand at the exponent of the p-th digit *)
+Definition rat_to_fbig_spec (B p : Z) (m : mode) (N D : Z) : Z * Z * comparison :=
+  if N =? 0 then (0, 0, Eq) else
+  let u := rat_exp B N D - p + 1 in
+  let M := round_rat_at B m N D u in
+  (M, u, cmp_kx B 1 (XRat N D) M u).
